@@ -49,7 +49,10 @@ EqualsDescs == [i \in DOMAIN GridSeq |-> <<"e", "equals", GridSeq[i], One>>]
 SelfShapes == <<<<>>, <<3>>, <<2, 3>>, <<2, 1, 2>>>>
 SelfDescs == Flatten2([i \in DOMAIN SelfShapes |-> [f \in DOMAIN SameOps |-> <<"self", SameOps[f], SelfShapes[i]>>]
                                                   \o [f \in DOMAIN AOps |-> <<"self", AOps[f], SelfShapes[i]>>]])
-Descs == MyCases(UnaryDescs \o SameDescs \o ArithDescs \o BadDescs \o EqualsDescs \o SelfDescs)
+(* two implicit expansions whose (source, target) shapes collide under a digit-string / base-B cache key, in ONE case *)
+PairFwDescs == << <<"pairfw", <<1, 1>>, <<11>>, <<2, 11>>>>, <<"pairfw", <<11, 1>>, <<1, 11>>, <<11, 11>>>>, <<"pairfw", <<2, 1>>, <<1, 32>>, <<2, 32>>>>,
+                  <<"pairfw", <<1, 2>>, <<33, 1>>, <<33, 2>>>>, <<"pairfw", <<1, 12>>, <<11, 2>>, <<11, 12>>>> >>
+Descs == MyCases(PairFwDescs \o UnaryDescs \o SameDescs \o ArithDescs \o BadDescs \o EqualsDescs \o SelfDescs)
 
 (* tinypos / tinymix: DISTINCT neighbours closer than the library's equality tolerance (1e-240) *)
 UDom(op, k) == CASE op = "log" -> "pos,wide,tinypos"
@@ -72,6 +75,12 @@ Build(d) ==
                    <<Ins(d[2], NoPar, <<1, 2>>),
                      Ins("broadcast", [shape |-> t], <<1>>), Ins("broadcast", [shape |-> t], <<2>>),
                      Ins(d[2], NoPar, <<4, 5>>)>>, <<3, 4, 5, 6>>, 0, TRUE)
+    [] d[1] = "pairfw" ->
+         (IF BCompatible(d[2], d[4]) /\ BCompatible(d[3], d[4])
+          THEN MkCase("c03", "two-expansions", <<In("a", d[2], FALSE), In("b", d[3], FALSE), In("y", d[4], FALSE)>>, <<"any,distinct", "any,distinct", "any">>,
+                      <<Ins("add", NoPar, <<1, 3>>), Ins("mul", NoPar, <<2, 3>>), Ins("sub", NoPar, <<3, 1>>), Ins("add", NoPar, <<3, 2>>)>>, <<4, 5, 6, 7>>, 0, TRUE)
+          ELSE MkCase("c03", "two-expansions", <<In("a", d[2], FALSE), In("y", d[4], FALSE)>>, <<"any,distinct", "any">>,
+                      <<Ins("add", NoPar, <<1, 2>>)>>, <<3>>, 0, TRUE))
     [] d[1] = "self" ->
          MkCase("c03", d[2] \o "-same-object", <<In("a", d[3], FALSE)>>, <<IF d[2] = "div" THEN "nz,wide,nz" ELSE "any,wide,zero,ties">>,
                 <<Ins(d[2], NoPar, <<1, 1>>)>>, <<2>>, 0, TRUE)
@@ -90,5 +99,5 @@ Build(d) ==
 Cases == [i \in DOMAIN Descs |-> Build(Descs[i])]
 
 ASSUME Write(Cases)
-ASSUME PrintT(<<"generated", Len(Cases), "of", Len(UnaryDescs) + Len(SameDescs) + Len(ArithDescs) + Len(BadDescs) + Len(EqualsDescs) + Len(SelfDescs)>>)
+ASSUME PrintT(<<"generated", Len(Cases), "of", Len(UnaryDescs) + Len(SameDescs) + Len(ArithDescs) + Len(BadDescs) + Len(EqualsDescs) + Len(SelfDescs) + Len(PairFwDescs)>>)
 =============================================================================
